@@ -29,7 +29,7 @@ M = [
  ("C05","stray-continue-not-reported","interpreter/interpreter.go","\t\t} else if signal.Type == ControlFlowContinue {\n\t\t\tutils.RuntimeError(token.Token{Line: signal.LineNumber}, \"Unexpected 'continue' outside of loop.\")\n\t\t\treturn nil\n","\t\t} else if signal.Type == ControlFlowContinue {\n\t\t\tcontinue\n"),
  ("C06","exit-1-instead-of-70","main.go","os.Exit(70)","os.Exit(1)"),
  ("C06","callee-error-next-line","interpreter/interpreter.go","utils.RuntimeError(e.Paren, \"Can only call functions.\")","utils.RuntimeError(token.Token{Line: e.Paren.Line + 1}, \"Can only call functions.\")"),
- ("C06","eval-guard-removed","interpreter/interpreter.go","\tif utils.HadRuntimeError {\n\t\t// A runtime error has been reported: nothing else is evaluated.\n\t\treturn nil, &ControlFlowSignal{Type: ControlFlowNone, LineNumber: 0}\n\t}\n",""),
+ ("X06","eval-guard-removed","interpreter/interpreter.go","\tif utils.HadRuntimeError {\n\t\t// A runtime error has been reported: nothing else is evaluated.\n\t\treturn nil, &ControlFlowSignal{Type: ControlFlowNone, LineNumber: 0}\n\t}\n",""),
  ("C06","index-error-does-not-set-flag","interpreter/interpreter.go","\t\t\tutils.RuntimeError(token.Token{Line: e.Line}, \"Array index out of bounds.\")\n\t\t\treturn nil, &ControlFlowSignal{Type: ControlFlowNone, LineNumber: 0}\n\t\t}\n\n\t\treturn array[index]","\t\t\tfmt.Fprintf(os.Stderr, \"Array index out of bounds.\\n[line %d]\\n\", e.Line)\n\t\t\treturn nil, &ControlFlowSignal{Type: ControlFlowNone, LineNumber: 0}\n\t\t}\n\n\t\treturn array[index]"),
  ("C07","index-upper-bound-dropped","interpreter/interpreter.go","\t\tif index < 0 || int(index) >= len(array) {\n\t\t\tutils.RuntimeError(token.Token{Line: e.Line}, \"Array index out of bounds.\")\n\t\t\treturn nil, &ControlFlowSignal{Type: ControlFlowNone, LineNumber: 0}\n\t\t}\n\n\t\treturn array[index]","\t\tif index < 0 {\n\t\t\tutils.RuntimeError(token.Token{Line: e.Line}, \"Array index out of bounds.\")\n\t\t\treturn nil, &ControlFlowSignal{Type: ControlFlowNone, LineNumber: 0}\n\t\t}\n\n\t\treturn array[index]"),
  ("C07","len-unchecked-assertion","interpreter/nativeFunctionArray.go","\tarray, ok := arguments[0].([]interface{})\n\tif !ok {\n\t\treturn nil, fmt.Errorf(\"len function only works on arrays\")\n\t}","\tarray := arguments[0].([]interface{})"),
@@ -42,7 +42,7 @@ M = [
  ("C09","string-value-includes-quote","lexer/scanner.go","value := string(s.source[s.start+1 : s.current-1])","value := string(s.source[s.start+1 : s.current])"),
  ("C09","no-line-count-in-strings","lexer/scanner.go","\tfor s.peek() != '\"' && !s.isAtEnd() {\n\t\tif s.peek() == '\\n' {\n\t\t\ts.line++\n\t\t}\n\t\ts.advance()","\tfor s.peek() != '\"' && !s.isAtEnd() {\n\t\ts.advance()"),
  ("C09","identifier-without-marks","lexer/scanner.go","return unicode.IsLetter(r) || unicode.IsMark(r) || r == '_'","return unicode.IsLetter(r) || r == '_'"),
- ("C09","le-after-shl","lexer/scanner.go","\t\tif s.match('=') {\n\t\t\ts.addToken(token.LESS_EQUAL)\n\t\t} else if s.match('<') {\n\t\t\ts.addToken(token.LEFT_SHIFT)","\t\tif s.match('<') {\n\t\t\ts.addToken(token.LEFT_SHIFT)\n\t\t} else if s.match('=') {\n\t\t\ts.addToken(token.LESS_EQUAL)"),
+ ("X09","le-after-shl","lexer/scanner.go","\t\tif s.match('=') {\n\t\t\ts.addToken(token.LESS_EQUAL)\n\t\t} else if s.match('<') {\n\t\t\ts.addToken(token.LEFT_SHIFT)","\t\tif s.match('<') {\n\t\t\ts.addToken(token.LEFT_SHIFT)\n\t\t} else if s.match('=') {\n\t\t\ts.addToken(token.LESS_EQUAL)"),
  ("C10","digit-table-6-to-5","utils/utils.go","'৬': '6'","'৬': '5'"),
  ("C10","digit-range-ends-at-8","lexer/scanner.go","c <= '৯'","c <= '৮'"),
  ("C10","fraction-without-digit-guard","lexer/scanner.go","if s.peek() == '.' && isDigit(s.peekNext())","if s.peek() == '.'"),
